@@ -438,6 +438,15 @@ def check_call(case):
                         "than the one named (core 0 for methods without a "
                         "core argument)", dict(det, got=p, expected=core,
                                                command=cmd))
+            elif kind == "sysinfo":
+                # exploration begins at the chip named: the point-to-point
+                # table (the only memory reads of the probe) is that chip's
+                if cmd == 2:
+                    require((x, y, p) == (r["x"], r["y"], 0), "the "
+                            "point-to-point table is not read from the chip "
+                            "the exploration was to begin at",
+                            dict(det, got=[x, y, p],
+                                 expected=[r["x"], r["y"], 0]))
             elif kind == "bcast":
                 require((x, y, p) == (255, 255, 0), "a flood-fill / signal "
                         "command is not addressed to (255, 255) core 0",
